@@ -123,6 +123,10 @@ func (r *realPatcher) patchPodBatchLabel(pods []*corev1.Pod, ctx *batchcontext.B
 			klog.InfoS("Pod batchID is not a number, skip patching", "pod", klog.KObj(pod), "rollout", r.logKey)
 			continue
 		}
+		if podBatchID < 1 || podBatchID > len(plannedUpdatedReplicasForBatches) {
+			klog.InfoS("Pod batchID is out of the range of the release plan, skip patching", "pod", klog.KObj(pod), "rollout", r.logKey, "batchID", podBatchID)
+			continue
+		}
 		plannedUpdatedReplicasForBatches[podBatchID-1]--
 	}
 	klog.InfoS("updatedButUnpatchedPods amount calculated", "amount", len(updatedButUnpatchedPods),
